@@ -110,3 +110,39 @@ Definition judge_all (c : xcase) : list nat :=
   | ObsOk r _, None => [ ag; b2n (C01_ok (expected_ids (x_req c)) r); 0; 0; 0; 0; 0; 0; b2n (C01_struct c r ag); 0; 0 ]
   | ObsErr, _ => [ ag; 0; 0; 0; 0; 0; 0; 0; 0; 0; 0 ]
   end.
+
+(** ** one bias application (a stage of the trace) *)
+From RDM Require Import Model.Listeners Model.Biases Model.Anchoring Check.Stage Check.BiasCheckers.
+
+Record scase := { s_env : @env NumF; s_name : string; s_props : @bprops NumF; s_before : @state NumF;
+                  s_after : option (@state NumF); s_report : @report NumF; s_after_final : option (@state NumF);
+                  s_report_final : @report NumF }.
+Definition mkS e n p b a r af rf :=
+  {| s_env := e; s_name := n; s_props := p; s_before := b; s_after := a; s_report := r; s_after_final := af; s_report_final := rf |}.
+
+(* columns: 0 stage correspondence (0 agree, 1 model rejects/code accepts, 2 model accepts/code rejects,
+   3 states differ, 4 reports differ, 10.. harness) | 1 inv after | 2 frame | 3 later stages did not rewrite the
+   state/report handed on (C09) | 4 C15 | 5 C16 | 6 C17 | 7 C18 | 8 C19 *)
+Definition judge_stage (c : scase) : list nat :=
+  let m := apply_bias (s_env c) (s_name c) (s_before c) (s_props c) in
+  let ag := match m, s_after c with
+            | Err EOutOfRandom, _ => 10 | Err EOutOfOracle, _ => 11 | Err EOutOfFuel, _ => 12
+            | Err _, None => 0
+            | Err _, Some _ => 1
+            | Ok _, None => 2
+            | Ok (st, rep), Some st' => if negb (state_same st st') then 3 else if negb (report_same rep (s_report c)) then 4 else 0
+            end in
+  match s_after c with
+  | None => [ag; 0; 0; 0; 0; 0; 0; 0; 0]
+  | Some a =>
+      let nm := s_name c in let p := s_props c in let b := s_before c in let r := s_report c in
+      [ ag;
+        b2n (inv a);
+        b2n (frame_ok nm p b a);
+        b2n (match s_after_final c with Some af => state_same a af && report_same r (s_report_final c) | None => false end);
+        if String.eqb nm b_omission then b2n (C15_ok p b a r) else 0;
+        if String.eqb nm b_reversal then b2n (C16_ok p b a r) else 0;
+        if String.eqb nm b_fatigue then b2n (C17_ok (s_env c) p b a r) else 0;
+        if String.eqb nm b_concealment || String.eqb nm b_mixing then b2n (C18_ok nm p b a r) else 0;
+        if String.eqb nm b_anchoring then b2n (C19_ok (s_env c) p b a r) else 0 ]
+  end.
